@@ -130,12 +130,12 @@ type ParamsJ struct {
 type Action struct {
 	A string `json:"a"`
 	// Init
-	Users  []string                    `json:"users,omitempty"`
-	NA     int                         `json:"na,omitempty"`
-	DD     int64                       `json:"grid,omitempty"`
-	Bal0   map[string]map[string]int64 `json:"bal0,omitempty"`
-	Params *ParamsJ                    `json:"params,omitempty"`
-	Listeners int                      `json:"listeners,omitempty"`
+	Users     []string                    `json:"users,omitempty"`
+	NA        int                         `json:"na,omitempty"`
+	DD        int64                       `json:"grid,omitempty"`
+	Bal0      map[string]map[string]int64 `json:"bal0,omitempty"`
+	Params    *ParamsJ                    `json:"params,omitempty"`
+	Listeners int                         `json:"listeners,omitempty"`
 	// messages
 	By        string   `json:"by,omitempty"`
 	Price     int64    `json:"price,omitempty"`
